@@ -49,9 +49,9 @@ def execute(case):
         out.setdefault(k, d)
     empty = {"rank0": 0, "root": {"k": "F", "e": []}, "ranks": []}
     out.update({"exc": "ok", "shapes": [shape] * depth, "res": empty, "res2": empty, "eq": 0, "did2": 0, "nest": "", "post": {},
-                "empty": 0 if case["tree"]["e"] else 1, "active_ok": 1})
+                "empty": 0 if case["tree"]["e"] else 1, "active_ok": 1, "leafdflt_ok": 1, "dflt": case.get("dflt", 0)})
     try:
-        t = proj.build_tensor(case["tree"], IDS[:depth], shape=[shape] * depth if case.get("declshape", 1) else None)
+        t = proj.build_tensor(case["tree"], IDS[:depth], shape=[shape] * depth if case.get("declshape", 1) else None, default=case.get("dflt", 0))
         if case.get("fmts"):
             for rid, fm in zip(IDS[:depth], case["fmts"]):
                 t.setFormat(rid, fm)
@@ -96,6 +96,13 @@ def execute(case):
                     r2 = copy.deepcopy(r)
                     r2.unflattenRanksBelow(depth=d - 1, levels=out["levels"])
                 out["res2"], out["did2"] = pj(r2), 1
+                # the default an unwritten point reads as, in every leaf fiber of the round trip's result
+                def leaves(f, lv):
+                    if lv == 1:
+                        return [f]
+                    return [x for p in f.payloads if isinstance(p, Fiber) for x in leaves(p, lv - 1)]
+                root2 = r2.getRoot() if isinstance(r2, Tensor) else r2
+                out["leafdflt_ok"] = 1 if all(Payload.get(lf.getDefault()) == case.get("dflt", 0) for lf in leaves(root2, depth)) else 0
         elif op == "merge":
             fn = (lambda ps: max(ps)) if out["fn"] == "max" else None
             kw = {"coord_style": out["style"]} if via == "tensor" else {"style": out["style"]}
